@@ -48,6 +48,10 @@ OPS = [('run', k) for k in PROGS] + [
     # numbers inside a list: handed out as text, like every input
     ('set_input', [6, 2.5, True]), ('queue_input', 7, 0.5), ('run_inputs', 'read2', [8, 9]), ('set_input_tuple', (1, 'two')), ('set_input_callable',), ('run_before_after', 'read1'),
     ('call_target', 'pr'),
+    # an instructor's own mock of input(): the queue keeps serving the student (each execution installs its tracker)
+    ('mock_input',),
+    # the allowance of input() calls is one per execution (no program here reads more than three times)
+    ('limit5',),
 ]
 PROMPTS = ['', 'p>', 'one?', 'two?']
 CAL = {}
@@ -206,6 +210,10 @@ def apply_real(op):
         sb_cmds.queue_input(*op[1:], **KW)
     elif k == 'clear_input':
         sb_cmds.clear_input(**KW)
+    elif k == 'limit5':
+        sb_cmds.get_sandbox(**KW).MAXIMUM_INPUTS = 5
+    elif k == 'mock_input':
+        sb_cmds.get_sandbox(**KW).mock_function('input', lambda prompt='': 'MOCKED')
 
 
 EXEC = ('run', 'call', 'eval', 'run_inputs', 'call_inputs', 'run_before_after', 'call_target')
